@@ -29,6 +29,49 @@ class Inconclusive(BaseException):
 OPTIONS = {"def_relations": False}   # see Ctx.polyvar (opt-in per harness)
 
 
+S2X = {"mode": None, "n": 0, "spent": 0.0, "agree": 0, "noverdict": 0}
+
+
+def _second_solver_pruned(pc, e):
+    """A branch z3 calls infeasible is never explored, so a wrong 'unsat' would silently lose paths: the first few
+    pruned branches of every obligation (QV_SOLVER2_PRUNED, within a time allowance) are re-decided by cvc5 from the
+    SMT-LIB text of path condition + branch condition.  cvc5 'sat' => Inconclusive (never a pass)."""
+    import os
+    if S2X["mode"] is None:
+        S2X["mode"] = os.environ.get("QV_SOLVER2", "cvc5")
+        S2X["max"] = int(os.environ.get("QV_SOLVER2_PRUNED", "25"))
+        S2X["budget"] = float(os.environ.get("QV_SOLVER2_BUDGET_S", "4"))
+    if S2X["mode"] != "cvc5" or S2X["n"] >= S2X["max"] or S2X["spent"] > S2X["budget"]:
+        return
+    S2X["n"] += 1
+    t0 = time.time()
+    r2 = None
+    try:
+        import cvc5
+        s = z3.Solver()
+        s.add(*pc)
+        s.add(e)
+        txt = "(set-logic ALL)\n" + s.to_smt2()
+        slv = cvc5.Solver()
+        slv.setOption("tlimit-per", "1500")
+        ip = cvc5.InputParser(slv)
+        ip.setStringInput(cvc5.InputLanguage.SMT_LIB_2_6, txt, "q")
+        sm = ip.getSymbolManager()
+        while True:
+            c = ip.nextCommand()
+            if c.isNull():
+                break
+            o = c.invoke(slv, sm)
+            if c.getCommandName() == "check-sat":
+                r2 = str(o).strip()
+    except Exception:                                             # noqa: BLE001 - unusable second solver decides nothing
+        r2 = None
+    S2X["spent"] += time.time() - t0
+    if r2 == "sat":
+        raise Inconclusive(f"solver disagreement on a pruned branch: z3 unsat, cvc5 sat ({str(e)[:160]})")
+    S2X["agree" if r2 == "unsat" else "noverdict"] += 1
+
+
 class Ctx:
     cur = None
 
@@ -63,6 +106,8 @@ class Ctx:
         r = str(r)
         if r == "unknown":
             raise Inconclusive(f"solver unknown on branch condition {str(e)[:200]}")
+        if r == "unsat":
+            _second_solver_pruned(self.pc, e)
         return r == "sat"
 
     def model(self, extra=None):
@@ -1020,6 +1065,8 @@ def explore(run_path, max_paths=2000, wall_s=120.0, solver_timeout_ms=20000):
         todo.extend(ctx.alts)
         if res.kind != "abort" or res.violations:
             results.append(res)
+    stats["second_solver_pruned_agree"] = S2X["agree"]
+    stats["second_solver_pruned_noverdict"] = S2X["noverdict"]
     return results, stats
 
 
